@@ -230,8 +230,10 @@ func (d *c16Disk) RecoverFromSnapshot(r io.Reader, _ <-chan struct{}) error {
 	if err != nil {
 		return err
 	}
+	// "RecoverFromSnapshot is not required to synchronize its recovered in-core
+	// state with that on disk" (statemachine/disk.go): dragonboat calls Sync
 	d.st = st
-	return d.persist()
+	return nil
 }
 func (d *c16Disk) Close() error { return nil }
 
@@ -375,7 +377,9 @@ func (d *c16DB) ImportSnapshot(ss pb.Snapshot, r uint64) error {
 	d.log.add(c16DBOp{Op: "ImportSnapshot", ReplicaID: r, Snapshot: &ss})
 	return nil
 }
-func (d *c16DB) RemoveNodeData(s, r uint64) error { panic("c16: RemoveNodeData is not part of any workload") }
+func (d *c16DB) RemoveNodeData(s, r uint64) error {
+	panic("c16: RemoveNodeData is not part of any workload")
+}
 
 var _ raftio.ILogDB = (*c16DB)(nil)
 
@@ -420,6 +424,7 @@ func (h *c16HookFS) Create(name string) (vfs.File, error) {
 	}
 	return &c16HookFile{File: f, h: h, name: name}, nil
 }
+
 // Stat reports the base name of the path asked for, as a real file system
 // does. (lni/vfs MemFS keeps the name a node got from its last Rename even
 // after ResetToSyncedState undid that rename, which made processOrphans look
